@@ -176,3 +176,19 @@ Theorem C09_decode_charset_ascii : forall q l,
   exists q', transcode_query ascii_decode_strict q = Ok q' /\ parse_utf8 q' = Ok l.
 Proof. exact (transcode_same_pairs ascii_decode_strict ascii_decoder_text). Qed.
 Print Assumptions C09_decode_charset_ascii.
+
+(* request.decode(cs) on a query / urlencoded body WITHOUT any '=' (bare names): the names are transcoded and the
+   bare form is kept; the result parses, as UTF-8, to the same pairs.  The codec must return text, decode the empty
+   octet string to the empty text, and no name may decode to '' (a bare empty name cannot be written without '=';
+   only a codec that decodes non-empty octets to nothing, e.g. a lone UTF-16 BOM, could produce one). *)
+Theorem C09_decode_charset_bare_names : forall decode : list N -> option str,
+  (forall b s, decode b = Some s -> valid_text s = true) -> decode [] = Some [] ->
+  forall q l, parse_qsl_text decode q = Ok l -> mem_n 61 q = false -> names_nonempty l = true ->
+  exists q', transcode_query decode q = Ok q' /\ parse_utf8 q' = Ok l.
+Proof. exact transcode_bare_names. Qed.
+Print Assumptions C09_decode_charset_bare_names.
+
+Example C09_bare_names_example :
+  transcode_query latin1_decode [107;37;69;57;38;120;43;121]                    (* k%E9&x+y *)
+  = Ok [107;37;67;51;37;65;57;38;120;43;121].                                 (* k%C3%A9&x+y *)
+Proof. reflexivity. Qed.
